@@ -452,6 +452,10 @@ func drawWorld06(r *rng.R) *Case {
 
 // judge06: pieces with carried state must reproduce the whole-sequence Run bit for bit.
 func judge06(c *Case, wr *worldRun, rc *refCache) []verdict {
+	if len(c.World.Env) > 0 {
+		defer evid.ApplyEnv(c.World.Env)()
+		rc = &refCache{m: map[uint64]*refResult{}, pristine: rc.pristine}
+	}
 	var vs []verdict
 	for si, s := range c.Sessions {
 		wm := s.Model
